@@ -30,7 +30,7 @@ import (
 func init() {
 	Register(&Check{
 		ID: "C31", World: "E/decision-cache", Gen: genCache, Run: runCache,
-		OwnProbes: []string{"kept_evicted_by_capacity", "resize_shrinks", "dropped_checked_after_ttl", "dropped_and_kept", "filter_rotated", "drop_recorded_into_both_generations", "drop_checked_after_a_rotation"},
+		OwnProbes: []string{"kept_evicted_by_capacity", "resize_shrinks", "dropped_checked_after_ttl", "dropped_and_kept", "filter_rotated", "drop_recorded_into_both_generations", "drop_checked_after_a_rotation", "drop_checked_after_a_rotation_and_ttl"},
 		Real:      []string{"collect/cache.cuckooSentCache", "collect/cache.CuckooTraceChecker (add queue, drain loop, Maintain, rotation)", "collect/cache.KeptReasonsCache", "generics.SetWithTTL", "hashicorp/golang-lru", "panmari/cuckoofilter"},
 		Stub:      []string{"metrics (recording double)", "clock (synctest bubble clock: drain and maintenance tickers run on simulated time)"},
 	})
@@ -105,6 +105,11 @@ func genCache(r *Rng, tier string, p *Plan) {
 			now += dt
 			p.Add(Op{K: "adv", At: now, N: dt})
 			if probe {
+				if r.Bool(0.6) {
+					// beyond the few seconds for which recent drops are also remembered in a set
+					now += 3_100_000
+					p.Add(Op{K: "adv", At: now, N: 3_100_000})
+				}
 				p.Add(Op{K: PickOf(r, "check_trace", "check_span"), At: now, I: id})
 			}
 			continue
@@ -242,6 +247,9 @@ func runCache(t *testing.T, p *Plan) *Outcome {
 					}
 					if time.Now().Sub(d.at) > 3*time.Second {
 						out.Probe("dropped_checked_after_ttl")
+						if rotated {
+							out.Probe("drop_checked_after_a_rotation_and_ttl")
+						}
 					}
 					inKept := false
 					for _, e := range lru {
